@@ -242,8 +242,9 @@ def decTiger (lines : List Str) : Option TigerSentence := do
   let tLines := ls.filter (fun l => "<t ".toList.isPrefixOf l)
   let toks ← tLines.mapM fun l => do
     let a := attrs (l.drop 2)
-    let id ← attr a "id"; let w ← attr a "word"; let le ← attr a "lemma"; let p ← attr a "pos"; let m ← attr a "morph"
-    pure (id, (w, le, p, m))
+    let id ← attr a "id"; let w ← attr a "word"; let p ← attr a "pos"
+    -- lemma and morphology are optional attributes: absent = the default
+    pure (id, (w, (attr a "lemma").getD "--".toList, p, (attr a "morph").getD "--".toList))
   -- nonterminals with their edges, in file order
   let rec nts (ls : List Str) (cur : Option (Str × Str × List (Str × Str))) (acc : List (Str × Str × List (Str × Str))) :
       List (Str × Str × List (Str × Str)) :=
